@@ -52,7 +52,7 @@ def run_single(ctx, binary, args, nshards, timeout=1800):
 
 
 # ------------------------------------------------------------------ miri
-def run_miri(ctx, mode, nprocs, batch, timeout=1500):
+def run_miri(ctx, mode, nprocs, batch, timeout=600):
     """Run nprocs Miri processes, each a batch of scenarios. Returns (agg, violations, lost)."""
     ctx.ensure_ws()
     base = ["cargo", "+nightly", "miri", "run", "-q", "--offline", "-p", "shmsim", "--bin", "shmmiri", "--features", "hooks",
